@@ -188,11 +188,25 @@ def observe(cfg):
                               and onp.asarray(val).dtype == onp.asarray(y0).dtype)
         rows = []
         st = None
+        ncall = 0
+        first_g = None
         for g in basis(y0):
             gc = onp.conj(g)
             if isinstance(gc, onp.ndarray):
                 gc.flags.writeable = False
-            r = vjp(gc if onp.ndim(y0) or onp.iscomplexobj(y0) else float(onp.real(gc)))
+            garg = gc if onp.ndim(y0) or onp.iscomplexobj(y0) else float(onp.real(gc))
+            try:
+                r = vjp(garg)
+            except Exception as ex:     # noqa
+                if ncall == 0:
+                    raise
+                # the SAME VJP function worked for an earlier cotangent and fails for this one: not "unsupported", but not reusable
+                v["late"] = "call %d of the VJP function raised %s: %s" % (ncall + 1, type(ex).__name__, str(ex)[:80])
+                rows = None
+                break
+            if ncall == 0:
+                first_g = garg
+            ncall += 1
             if has_box(r):
                 v["box"] = True
             st = struct(r)
@@ -200,6 +214,20 @@ def observe(cfg):
                 rows = None
                 break
             rows.append(realify(onp.conj(r)))
+        if ncall == 0 and m == 0:
+            # empty output: there is no basis cotangent, but the VJP function must still answer (with a zero of the argument's structure)
+            r = vjp(onp.zeros(onp.shape(y0), dtype=onp.asarray(y0).dtype))
+            if has_box(r):
+                v["box"] = True
+            st = struct(r)
+        if rows and not v.get("late"):
+            # apply the first cotangent once more, after all the others: a VJP function is a function of g only
+            try:
+                again = realify(onp.conj(vjp(first_g)))
+                if again.shape != rows[0].shape or not onp.array_equal(again, rows[0], equal_nan=True):
+                    v["late"] = "re-applying the first cotangent after %d calls gives a different result" % ncall
+            except Exception as ex:     # noqa
+                v["late"] = "re-applying the first cotangent raised %s" % type(ex).__name__
         v["struct"] = st if st is not None else struct(vspace(x).zeros())
         if rows is not None:
             RR = onp.array(rows, dtype=float).reshape(m, n)
@@ -289,6 +317,39 @@ def observe(cfg):
             adj["lin_jvp"] = int(onp.sum(onp.abs(realify(t) - rhs) / onp.maximum(1.0, onp.abs(rhs)) > 1e-10))
     except Exception as ex:     # noqa
         adj["lin_error"] = type(ex).__name__
+    # ---------------- linearity as a *traced* function, at the origin: d/dg vjp(g) at g = 0 is vjp itself (and likewise for the JVP).
+    # A rule that is numerically linear but cuts the dependence on g for special values of g (a mask on g == 0, a branch on its sign)
+    # is exact at first order and silently wrong as soon as the cotangent is itself differentiated (nested / higher-order use).
+    adj["lin0_vjp"], adj["lin0_jvp"], adj["lin0_checked"] = 0, 0, 0
+    if not kink and cfg["id"] % 2 == 0:
+        if RR is not None and m > 0 and not v.get("late"):
+            c1 = rs.randint(-3, 4, m).astype(float)
+            gdir = onp.conj(unreal(c1, y0))
+            sc_out = not (onp.ndim(y0) or onp.iscomplexobj(y0))
+            gdir = float(onp.real(gdir)) if sc_out else gdir
+            g0 = 0.0 if sc_out else onp.zeros_like(gdir)
+            rhs = c1 @ RR
+            try:
+                t = make_jvp(vjp)(g0)(gdir)[1]
+                lhs = realify(onp.conj(t))
+                adj["lin0_checked"] += 1
+                adj["lin0_vjp"] = int(lhs.shape != rhs.shape or onp.sum(onp.abs(lhs - rhs) / onp.maximum(1.0, onp.abs(rhs)) > 1e-10))
+            except Exception as ex:     # noqa   (a rule without a forward-mode rule of its own: loud, not silent)
+                adj["lin0_vjp_skip"] = type(ex).__name__
+        if FR is not None and n > 0:
+            c1 = rs.randint(-3, 4, n).astype(float)
+            vdir = unreal(c1, x)
+            sc_in = not (onp.ndim(x) or onp.iscomplexobj(x))
+            vdir = float(onp.real(vdir)) if sc_in else vdir
+            v0 = 0.0 if sc_in else onp.zeros_like(vdir)
+            rhs = FR @ c1
+            try:
+                t = make_jvp(lambda vv: make_jvp(f)(xin)(vv)[1])(v0)(vdir)[1]
+                lhs = realify(t)
+                adj["lin0_checked"] += 1
+                adj["lin0_jvp"] = int(lhs.shape != rhs.shape or onp.sum(onp.abs(lhs - rhs) / onp.maximum(1.0, onp.abs(rhs)) > 1e-10))
+            except Exception as ex:     # noqa
+                adj["lin0_jvp_skip"] = type(ex).__name__
     obs["adj"] = adj
     # ---------------- value transparency (C06)
     pr = {"vg_eq": True, "nest_eq": True, "intact": True, "box": bool(v["box"] or j["box"])}
